@@ -315,22 +315,25 @@ func run(c Case) vt.Verdict {
 	// resolve to one header address, and that no group stores a name twice.
 	if data, err := os.ReadFile(file); err == nil {
 		res := hist.CompareIndep(ex.M, data)
-		if res.DecodeErr != "" {
-			// A hard-link request aimed at a soft/external link touches the link's pseudo object header (reference
-			// count message): consequence of KF-C03-01, recognised by the decoder's specific complaint.
-			aimedAtLink := false
-			for _, op := range c.Ops {
-				if op.K == "hard" {
-					if l := paths[op.Target]; l != nil && l.Kind != "hard" {
-						aimedAtLink = true
-					}
-				}
-				for _, dl := range op.Links {
-					if l := paths[dl[1]]; l != nil && l.Kind != "hard" {
-						aimedAtLink = true
-					}
+		// A hard-link request aimed at a soft/external link touches the link's pseudo object header (reference
+		// count message) and is stored as a hard link to that pseudo object: consequence of KF-C03-01.
+		aimedAtLink := false
+		aliases := map[string]bool{}
+		for _, op := range c.Ops {
+			if op.K == "hard" {
+				if l := paths[op.Target]; l != nil && l.Kind != "hard" {
+					aimedAtLink = true
+					aliases[op.Path] = true
 				}
 			}
+			for _, dl := range op.Links {
+				if l := paths[dl[1]]; l != nil && l.Kind != "hard" {
+					aimedAtLink = true
+					aliases[strings.TrimSuffix(op.Path, "/")+"/"+dl[0]] = true
+				}
+			}
+		}
+		if res.DecodeErr != "" {
 			if aimedAtLink && (strings.Contains(res.DecodeErr, "link/group info messages without a link info message") || strings.Contains(res.DecodeErr, "link pseudo-object")) {
 				return vt.KnownOr(kfLinkObj, "independent decoder: %s", res.DecodeErr)
 			}
@@ -343,7 +346,7 @@ func run(c Case) vt.Verdict {
 			if p.Kind == "indep-refcount" {
 				continue // reference counts are C05's concern (KF-C05-refcount)
 			}
-			if p.Kind == "indep-link-value" && underDense(p.Path) {
+			if p.Kind == "indep-link-value" && (underDense(p.Path) || (aliases[p.Path] && strings.Contains(p.Detail, "stored as hard"))) {
 				// a dense group's link to a soft/external link's pseudo object (KF-C03-01) is a hard link record
 				v := vt.KnownOr(kfLinkObj, "%s", p)
 				if v.Kind == vt.Violation {
